@@ -195,6 +195,9 @@ func (w *World) GenVC(fn *ssa.Function, ct *Contract, opts ...func(*Engine)) (re
 	if ct != nil && ct.Tokens {
 		e.UseTokens = true
 	}
+	if ct != nil && ct.FoldFrame {
+		e.FoldFrame = true
+	}
 	e.checkFmtSelfRecursion(fn, st)
 	entryAssumes := len(e.Assumes)
 	rets, exit, fr := e.execFuncTop(fn, args, binds, st, ct)
@@ -259,6 +262,25 @@ func (w *World) GenVC(fn *ssa.Function, ct *Contract, opts ...func(*Engine)) (re
 			t := ctx.boolean(cl.Expr, cl.Text)
 			e.Obls = append(e.Obls, &Obligation{Name: key + ":cover:" + clauseLabel(cl, i), Class: "cover", Cond: e.C.Not(e.C.And(exit.Reach, t)), NAssume: len(e.Assumes), ExpectSat: true,
 				Detail: "case is reachable: " + cl.Text})
+		}
+	}
+	// vacuity guard for lemma functions (ghost functions whose every statement is meant to be reachable): each basic
+	// block of the lemma's own body must be reachable under all assumptions made during the run. A lemma of the shape
+	// "if Encode failed { return true }; ...; return e1 != nil || buf.Len() == n" whose success path has become
+	// contradictory (a model assumption gone wrong) would otherwise keep "proving" its postcondition.
+	if strings.Contains(key, ".lemma") && !strings.Contains(key, "$") {
+		for _, b := range fn.Blocks {
+			bs := fr.exit[b]
+			if bs == nil || bs.Reach == nil {
+				continue
+			}
+			if _, ok := b.Instrs[len(b.Instrs)-1].(*ssa.Return); ok && !hasCall(b) {
+				// an early return that calls nothing ("return true" / "return nil, err": the encoder refused the message) is
+				// legitimately unreachable for messages that cannot be refused
+				continue
+			}
+			e.Obls = append(e.Obls, &Obligation{Name: fmt.Sprintf("%s:cover:block%d", key, b.Index), Class: "cover", Cond: e.C.Not(bs.Reach), NAssume: len(e.Assumes), ExpectSat: true,
+				Pos: posOfBlock(e, b), Detail: "this statement of the lemma is reachable (the assumptions made on the way do not contradict each other)"})
 		}
 	}
 	// string parameters: which literal (if any) the model picks
@@ -841,4 +863,14 @@ func printfVerbs(f string) []rune {
 		}
 	}
 	return out
+}
+
+
+func hasCall(b *ssa.BasicBlock) bool {
+	for _, in := range b.Instrs {
+		if _, ok := in.(*ssa.Call); ok {
+			return true
+		}
+	}
+	return false
 }
